@@ -47,7 +47,7 @@ class TakeAxis(Contract):
         arr, labels, data = make_dimarray(S, case["rank"], attrs={"units": "K"})
         idx = S.array1d("idx", "I")
         axis = "x%d" % case["d"] if case["by"] == "name" else case["d"]
-        return {"arr": arr, "labels": labels, "data": data, "idx": idx, "axis": axis}
+        return {"arr": arr, "labels": labels, "data": data, "idx": idx, "axis": axis, "attrs0": dict(arr.attrs)}
 
     def call(self, fn, env):
         return env["arr"].take_axis(env["idx"], axis=env["axis"], indexing="position")
@@ -69,8 +69,8 @@ class TakeAxis(Contract):
                                           for e in range(case["rank"]) if e != d)
         shape = [S.n(L) if e != d else m for e, L in enumerate(labels)]
         yield "cells", S.forall_nd(shape, lambda *ks: S.same(S.at(result.values, *ks), cell(S, data, ks, d, src(ks[d]))))
-        yield "metadata-copied", S.land(dict(result.attrs) == {"units": "K"}, result.attrs is not arr.attrs)
-        yield "operand-untouched", S.land(arr.values is data, *[arr.axes[e].values is labels[e] for e in range(case["rank"])])
+        yield "metadata-copied", S.land(dict(result.attrs) == env["attrs0"], result.attrs is not arr.attrs)
+        yield "operand-untouched", S.land(arr.values is data, dict(arr.attrs) == env["attrs0"], *[arr.axes[e].values is labels[e] for e in range(case["rank"])])
 
     def canaries(self, S, case, env, result):
         yield "one-label-too-many", S.n(result.axes[case["d"]].values) == S.n(env["idx"]) + 1
@@ -125,7 +125,8 @@ class ReindexAxis(Contract):
             kw["raise_error"] = True
         if case["given"] == "ndarray":
             kw["axis"] = "x%d" % case["d"]
-        return {"arr": arr, "labels": labels, "data": data, "old": S.snapshot(data), "new": new, "given": given, "kwargs": kw}
+        return {"arr": arr, "labels": labels, "data": data, "old": S.snapshot(data), "new": new, "given": given, "kwargs": kw,
+                "attrs0": dict(arr.attrs)}
 
     def call(self, fn, env):
         return env["arr"].reindex_axis(env["given"], **env["kwargs"])
@@ -136,13 +137,15 @@ class ReindexAxis(Contract):
     def raises(self, S, case, env):
         L, new = env["labels"][case["d"]], env["new"]
         n, m = S.n(L), S.n(new)
-        r = {}
+        # from the statement: labels that are missing are FILLED; an exception only when raise_error=True asks for it
         if case["raise_error"]:
-            r[IndexError] = S.exists(0, m, lambda k: self._missing(S, env, case, k))
-        else:
-            # nothing to take from: an empty axis cannot be reindexed onto a non-empty one
-            r[IndexError] = S.land(n == 0, m > 0)
-        return r
+            return {IndexError: S.exists(0, m, lambda k: self._missing(S, env, case, k))}
+        return {IndexError: False}
+
+    def known_regions(self, S, case, env):
+        # open finding (known_findings.json): reindexing FROM an empty axis onto a non-empty one raises instead of filling
+        L, new = env["labels"][case["d"]], env["new"]
+        return {"empty-source-axis": S.land(S.n(L) == 0, S.n(new) > 0)}
 
     def post(self, S, case, env, result):
         arr, labels, data, new, d = env["arr"], env["labels"], env["old"], env["new"], case["d"]
@@ -152,7 +155,8 @@ class ReindexAxis(Contract):
         Lr = result.axes[d].values
         yield "dims-kept", tuple(result.dims) == tuple(arr.dims)
         yield "axis-is-exactly-the-new-labels", S.land(S.n(Lr) == m, S.forall(0, m, lambda k: S.at(Lr, k) == S.at(new, k)))
-        yield "other-axes-equal", other_axes_equal(S, result, labels, d)
+        names = env.get("dims") or ["x%d" % e for e in range(case["rank"])]
+        yield "other-axes-equal", other_axes_equal(S, result, labels, d, names)
         shape = [S.n(Lb) if e != d else m for e, Lb in enumerate(labels)]
         # slices of present labels travel with their label
         yield "present-labels-keep-their-slice", S.forall_nd(shape, lambda *ks: S.forall(0, n, lambda p: S.implies(
@@ -174,10 +178,11 @@ class ReindexAxis(Contract):
                 return S.lor(is_next, is_last)
             yield "neighbour-in-sorted-order-as-searchsorted", S.forall_nd(shape, lambda *ks: S.forall(0, n, lambda p: S.implies(
                 neighbour(ks, p), lambda: S.same(S.at(rv, *ks), cell(S, data, ks, d, p)))))
-        yield "metadata-copied", S.land(dict(result.attrs) == {"units": "K"}, result.attrs is not arr.attrs)
+        yield "metadata-copied", S.land(dict(result.attrs) == env["attrs0"], result.attrs is not arr.attrs)
         yield "operand-untouched", S.land(
+            dict(arr.attrs) == env["attrs0"],
             S.forall_nd(S.shape(data), lambda *p: S.same(S.at(arr.values, *p), S.at(data, *p))),
-            tuple(arr.dims) == tuple("x%d" % e for e in range(case["rank"])),
+            tuple(arr.dims) == tuple(names),
             *[S.forall(0, S.n(labels[e]), lambda k, e=e: S.at(arr.axes[e].values, k) == S.at(labels[e], k)) for e in range(case["rank"])])
 
     def canaries(self, S, case, env, result):
@@ -202,7 +207,7 @@ class SortAxis(Contract):
 
     def setup(self, S, case):
         arr, labels, data = make_dimarray(S, case["rank"], attrs={"units": "K"})
-        return {"arr": arr, "labels": labels, "data": data}
+        return {"arr": arr, "labels": labels, "data": data, "attrs0": dict(arr.attrs)}
 
     def call(self, fn, env):
         return env["arr"].sort_axis(axis="x%d" % env["case"]["d"])
@@ -222,8 +227,8 @@ class SortAxis(Contract):
         rank = S.sort_rank(L)
         yield "every-label-lands-at-its-sorted-rank", S.forall(0, n, lambda p: S.land(
             0 <= S.at(rank, p), S.at(rank, p) < n, S.implies(S.land(0 <= S.at(rank, p), S.at(rank, p) < n), lambda: S.at(Lr, S.at(rank, p)) == S.at(L, p))))
-        yield "metadata-copied", dict(result.attrs) == {"units": "K"}
-        yield "operand-untouched", S.land(arr.values is data, arr.axes[d].values is L)
+        yield "metadata-copied", dict(result.attrs) == env["attrs0"]
+        yield "operand-untouched", S.land(arr.values is data, arr.axes[d].values is L, dict(arr.attrs) == env["attrs0"])
 
     def canaries(self, S, case, env, result):
         d = case["d"]
@@ -299,3 +304,258 @@ class GetAlignedAxes(Contract):
 
     def canaries(self, S, case, env, result):
         yield "returns-no-axes", len(result) == 0
+
+
+# --------------------------------------------------------------------------
+# ReindexAxis as a callee contract (used while verifying align)
+# --------------------------------------------------------------------------
+
+def _reindex_bind(self_arr, values, axis=0, fill_value=None, raise_error=False, method=None):
+    from dverif import symnp
+    from .common import order_of
+    if fill_value is not None and not (isinstance(fill_value, float) and fill_value != fill_value):
+        raise NotImplementedError("fill_value other than NaN")
+    given = "ndarray"
+    if isinstance(values, type(self_arr.axes[0])) or hasattr(values, "union"):
+        given, axis, new = "Axis", values.name, values.values
+    else:
+        new = symnp.asarray(values)
+    if not isinstance(axis, str):
+        axis = self_arr.dims[axis]
+    dims = list(self_arr.dims)
+    if axis not in dims:
+        raise NotImplementedError("unknown axis")
+    d = dims.index(axis)
+    if self_arr.values.dtype.kind != "f":
+        raise NotImplementedError("non-float data at a stubbed call site")
+    labels = [ax.values for ax in self_arr.axes]
+    if order_of(labels[d]) is None:
+        raise NotImplementedError("source axis without order tag")
+    case = {"name": "bound", "rank": len(dims), "d": d, "lk": labels[d].dtype.kind, "given": given, "method": method,
+            "raise_error": bool(raise_error), "dk": "f"}
+    env = {"arr": self_arr, "labels": labels, "data": self_arr.values, "old": self_arr.values, "new": new, "given": values,
+           "kwargs": {}, "dims": dims, "attrs0": dict(self_arr.attrs)}
+    return case, env
+
+
+def _reindex_requires(self, S, case, env):
+    yield "source-labels-unique", unique(S, env["labels"][case["d"]])
+
+
+def _reindex_fresh(self, S, case, env):
+    f = env["_fresh"]
+    d = case["d"]
+    m = S.n(env["new"])
+    axes = []
+    shape = []
+    for e, L in enumerate(env["labels"]):
+        n_e = m if e == d else S.n(L)
+        kind = L.dtype.kind
+        lab = S.fresh_array1d("%s.lab%d" % (f, e), {"f": "f", "i": "i", "O": "O"}.get(kind, "f"), n_e)
+        S.tag(lab, "order", "any" if e == d else "unique")
+        axes.append(S.da.Axis(lab, env["dims"][e]))
+        shape.append(n_e)
+    data = S.fresh_arraynd("%s.data" % f, "f", tuple(shape))
+    out = S.da.DimArray(data, axes=axes)
+    out.attrs.update(env["arr"].attrs)
+    return out
+
+
+ReindexAxis.bind = staticmethod(_reindex_bind)
+ReindexAxis.requires = _reindex_requires
+ReindexAxis.fresh_result = _reindex_fresh
+ReindexAxis.region_behaviour = {"empty-source-axis": IndexError}
+ReindexAxis.stub_target = "dimarray.core.dimarraycls:DimArray.reindex_axis"     # called as a method (class attribute)
+
+
+def _reindex_post_for_stub(orig_post):
+    """the post of ReindexAxis refers to dims as x0, x1, ...; at a call site the real names are in env['dims']"""
+    return orig_post
+
+
+# --------------------------------------------------------------------------
+# GetAlignedAxes as a callee contract
+# --------------------------------------------------------------------------
+
+def _gaa_bind(arrays, join="outer", axis=None, sort=False, strict=False):
+    if strict:
+        raise NotImplementedError("strict")
+    dims = []
+    for o in arrays:
+        for ax in o.axes:
+            if ax.name not in dims:
+                dims.append(ax.name)
+    if axis is not None:
+        if not isinstance(axis, str):
+            raise NotImplementedError("axis not a string")
+        dims = [axis]
+    case = {"name": "bound", "cfg": None, "join": join, "sort": bool(sort)}
+    env = {"arrays": list(arrays), "dims_out": dims, "join": join, "sort": sort, "axis": axis,
+           "labels": [{ax.name: (ax.values, ax.values) for ax in o.axes} for o in arrays]}
+    return case, env
+
+
+def _gaa_fresh(self, S, case, env):
+    f = env["_fresh"]
+    axes = S.da.Axes()
+    for d in env["dims_out"]:
+        kinds = [o.axes[d].values.dtype.kind for o in env["arrays"] if d in o.dims]
+        kind = "O" if "O" in kinds else ("f" if "f" in kinds else kinds[0])
+        lab = S.fresh_array1d("%s.%s" % (f, d), {"f": "f", "i": "i", "O": "O"}[kind], S.fresh_length("%s.%s.n" % (f, d)))
+        S.tag(lab, "order", "any")
+        axes.append(S.da.Axis(lab, d))
+    return axes
+
+
+def _gaa_post(self, S, case, env, result):
+    if case.get("cfg") is not None:
+        for c in GetAlignedAxes._post_checked(self, S, case, env, result):
+            yield c
+        return
+    # bound at a call site: what the contract PROVES (names / order, ascending under sort, inputs untouched)
+    yield "one-axis-per-dimension-in-first-occurrence-order", [ax.name for ax in result] == env["dims_out"]
+    if case["sort"]:
+        for ax in result:
+            v = ax.values
+            yield "sorted-ascending[%s]" % ax.name, S.forall2(0, S.n(v), lambda i, j, v=v: S.at(v, i) <= S.at(v, j))
+
+
+GetAlignedAxes._post_checked = GetAlignedAxes.post
+GetAlignedAxes.post = _gaa_post
+GetAlignedAxes.bind = staticmethod(_gaa_bind)
+GetAlignedAxes.fresh_result = _gaa_fresh
+
+
+class Align(Contract):
+    """align(arrays, join, sort, axis), compositionally: with `common` the axes _get_aligned_axes returns for the same
+    arguments (whose label SETS are specified by AxisUnion / AxisIntersection), every output array has, on each aligned
+    dimension it owns, exactly the common axis' labels in the common order; each of its slices at a label the input had is
+    the input's slice at that label and every other slice is NaN (reindex_axis' contract); dimensions an array lacks and
+    its other dimensions are untouched; the outputs come in the inputs' order; join / sort / axis are forwarded; no input
+    array is modified; nothing is raised (empty label sets included).  [C06, C15]"""
+    target = "dimarray.core.align:align"
+    props = ("C06", "C15")
+    uses = (stub_of(ReindexAxis), stub_of(GetAlignedAxes))
+    inlined = ("Axis.__eq__ (decides whether an array already has the common axis)",)
+    max_paths = 600
+
+    def bounded_obligations(self, case):
+        # join='inner': that nothing is raised needs "the common axis is a subset of every input's labels" (an empty input
+        # then forces an empty common axis, and reindex_axis' recorded region is unreachable).  That is AxisIntersection's
+        # set-level clause, carried by a bounded stand-in only -- so it is not assumed here and this obligation inherits the
+        # bounded status: it is decided by exhaustive native enumeration, not counted as discharged.
+        return ("raises[IndexError]",) if case["join"] == "inner" else ()
+
+    CONFIGS = {
+        "x0|x0": [["x0"], ["x0"]],
+        "x0|x0x1": [["x0"], ["x0", "x1"]],
+        "x0x1|x1": [["x0", "x1"], ["x1"]],
+        "x0": [["x0"]],
+        "x0|x0|x0": [["x0"], ["x0"], ["x0"]],
+    }
+
+    def cases(self, tier):
+        for cfg in self.CONFIGS:
+            if cfg == "x0|x0|x0" and tier == "quick":
+                continue
+            for join in ("outer", "inner"):
+                for sort in (False, True):
+                    yield {"name": "%s-%s-%s" % (cfg, join, "sort" if sort else "nosort"), "cfg": cfg, "join": join, "sort": sort}
+
+    def bound_lengths(self, case):
+        names = []
+        for t, dims in enumerate(self.CONFIGS[case["cfg"]]):
+            names += ["a%d.%s.n" % (t, d) for d in dims]
+        return names
+
+    def setup(self, S, case):
+        arrays, labels, datas = [], [], []
+        for t, dims in enumerate(self.CONFIGS[case["cfg"]]):
+            axes, labs = [], {}
+            for d in dims:
+                L = S.array1d("a%d.%s" % (t, d), "f")
+                assume_order(S, L, "unique")
+                labs[d] = L
+                axes.append(S.da.Axis(L, d))
+            data = S.arraynd("a%d.data" % t, "f", tuple(S.n(labs[d]) for d in dims))
+            arrays.append(S.da.DimArray(data, axes=axes))
+            labels.append(labs)
+            datas.append(data)
+        return {"arrays": arrays, "labels": labels, "datas": datas, "old": [S.snapshot(x) for x in datas],
+                "args": (list(arrays),), "kwargs": {"join": case["join"], "sort": case["sort"]}}
+
+    def raises(self, S, case, env):
+        return {IndexError: False}
+
+    def known_regions(self, S, case, env):
+        # open finding: an input whose axis on an aligned dimension is EMPTY cannot be reindexed onto a non-empty common
+        # axis (reindex_axis' own recorded region, lifted to align).  Phrased over the common axis the callee returned: whether
+        # that axis is non-empty follows from the inputs only through union's set semantics, which callers cannot assume.
+        try:
+            common, _ = self._common(S, case, env)
+        except Exception:
+            return {}        # natively: _get_aligned_axes itself failed; not this region
+        cax = {ax.name: ax.values for ax in common}
+        conds = []
+        for t, ds in enumerate(self.CONFIGS[case["cfg"]]):
+            for d in ds:
+                if d in cax:
+                    conds.append(S.land(S.n(env["labels"][t][d]) == 0, S.n(cax[d]) > 0))
+        return {"empty-operand-axis": S.lor(*conds)} if conds else {}
+
+    def _common(self, S, case, env):
+        calls = S.calls("GetAlignedAxes")
+        if calls:
+            cenv = calls[-1][2]
+            return calls[-1][3], {"join": cenv["join"], "sort": cenv["sort"], "axis": cenv["axis"]}
+        import importlib
+        mod = importlib.import_module("dimarray.core.align")      # (the attribute dimarray.core.align is the function align)
+        return mod._get_aligned_axes(list(env["arrays"]), join=case["join"], sort=case["sort"]), None
+
+    def post(self, S, case, env, result):
+        cfg = self.CONFIGS[case["cfg"]]
+        common, fwd = self._common(S, case, env)
+        if fwd is not None:
+            yield "join-sort-axis-forwarded", fwd["join"] == case["join"] and bool(fwd["sort"]) == case["sort"] and fwd["axis"] is None
+        yield "one-output-per-input-in-order", isinstance(result, list) and len(result) == len(cfg)
+        cax = {ax.name: ax.values for ax in common}
+        for t, ds in enumerate(cfg):
+            out, inp = result[t], env["arrays"][t]
+            yield "out%d:dims-kept" % t, tuple(out.dims) == tuple(ds)
+            for k, d in enumerate(ds):
+                Lo, Li, C = out.axes[k].values, env["labels"][t][d], cax[d]
+                yield "out%d:%s-is-the-common-axis" % (t, d), S.land(S.n(Lo) == S.n(C), S.forall(0, S.n(C), lambda j, Lo=Lo, C=C: S.implies(
+                    j < S.n(Lo), lambda: S.at(Lo, j) == S.at(C, j))))
+            old = env["old"][t]
+            shape = [S.n(cax[d]) for d in ds]
+            ov = out.values
+
+            def src_ok(ks, ps, ds=ds, t=t):
+                return S.land(*[S.land(0 <= p, p < S.n(env["labels"][t][d]),
+                                       S.implies(S.land(0 <= p, p < S.n(env["labels"][t][d])), lambda p=p, d=d, k=k: S.at(env["labels"][t][d], p) == S.at(cax[d], k)))
+                                for d, k, p in zip(ds, ks, ps)])
+            if len(ds) == 1:
+                n0 = S.n(env["labels"][t][ds[0]])
+                yield "out%d:present-labels-keep-their-data" % t, S.forall(0, shape[0], lambda k: S.forall(0, n0, lambda p: S.implies(
+                    S.at(env["labels"][t][ds[0]], p) == S.at(cax[ds[0]], k), lambda: S.same(S.at(ov, k), S.at(old, p)))))
+                yield "out%d:missing-labels-are-nan" % t, S.forall(0, shape[0], lambda k: S.implies(
+                    absent(S, env["labels"][t][ds[0]], S.at(cax[ds[0]], k)), lambda: S.isnan(S.at(ov, k))))
+            else:
+                n0, n1 = S.n(env["labels"][t][ds[0]]), S.n(env["labels"][t][ds[1]])
+                L0, L1, C0, C1 = env["labels"][t][ds[0]], env["labels"][t][ds[1]], cax[ds[0]], cax[ds[1]]
+                yield "out%d:present-labels-keep-their-data" % t, S.forall_nd(shape, lambda k0, k1: S.forall(0, n0, lambda p0: S.forall(0, n1, lambda p1: S.implies(
+                    S.land(S.at(L0, p0) == S.at(C0, k0), S.at(L1, p1) == S.at(C1, k1)), lambda: S.same(S.at(ov, k0, k1), S.at(old, p0, p1))))))
+                yield "out%d:missing-labels-are-nan" % t, S.forall_nd(shape, lambda k0, k1: S.implies(
+                    S.lor(absent(S, L0, S.at(C0, k0)), absent(S, L1, S.at(C1, k1))), lambda: S.isnan(S.at(ov, k0, k1))))
+        for t, ds in enumerate(cfg):
+            inp = env["arrays"][t]
+            yield "input-%d-untouched" % t, S.land(
+                tuple(inp.dims) == tuple(ds),
+                S.forall_nd(S.shape(env["old"][t]), lambda *p, t=t, inp=inp: S.same(S.at(inp.values, *p), S.at(env["old"][t], *p))),
+                *[S.land(S.n(inp.axes[k].values) == S.n(env["labels"][t][d]),
+                         S.forall(0, S.n(env["labels"][t][d]), lambda j, k=k, d=d, t=t, inp=inp: S.implies(
+                             j < S.n(inp.axes[k].values), lambda: S.at(inp.axes[k].values, j) == S.at(env["labels"][t][d], j))))
+                  for k, d in enumerate(ds)])
+
+    def canaries(self, S, case, env, result):
+        yield "returns-the-inputs-themselves", all(result[t] is env["arrays"][t] for t in range(len(result)))
